@@ -192,8 +192,8 @@ Proof. reflexivity. Qed.
    PROVED (C01_struct_roundtrip_partial): the first two conjuncts — the value Unserialize returns passes Validate
    and is accepted by Serialize — for every struct descriptor satisfying the BOOLEAN `xrt_desc` (unique property
    names; direct fields of the property's reflected type or a pointer to it, distinct per property;
-   `optional_fields_representable`: a property that is not required sits on a field whose zero value reads as
-   absent — pointer, nil interface, or treat-empty-as-default —, and a treat-empty-as-default property is not
+   `optional_fields_representable`: a property that is neither required nor given a default sits on a field whose
+   zero value reads as absent — pointer, nil interface, or treat-empty-as-default —, and a treat-empty-as-default property is not
    required, has no required_if / required_if_not and is named in no required_if_not), relative to the property types
    (xchildren_ok: what a property type's Unserialize returns is of its reflected type, passes its Validate and is
    accepted by its Serialize).  This is exactly the statement D44 violates (C01_struct_d44_refuted) — the D44
@@ -239,6 +239,7 @@ Print Assumptions C01_struct_d44_refuted.
 (* the boolean accepts the harness's *XPtrs (optional properties on pointer fields) and XNested (required members on
    value fields, an optional member behind a pointer) and rejects the D44 descriptor *)
 Example C01_struct_desc_example :
+  xrt_desc (xs_env xs_tab) xs_inner_props xs_inner_si = true /\
   xrt_desc (xs_env xs_tab) xs_ptrs_props xs_ptrs_si = true /\
   xrt_desc (xs_env xs_tab) xs_nested_props xs_nested_si = true /\
   xrt_desc (w_env [])
@@ -246,3 +247,24 @@ Example C01_struct_desc_example :
     (mkStructInfo "XTwo" false
        [("a", mkFieldRef "A" [0%nat] [0%nat] (TInt I64)); ("b", mkFieldRef "B" [1%nat] [1%nat] (TInt I64))]) = false.
 Proof. exact xs_rt_desc. Qed.
+
+(* the hypotheses are jointly satisfiable, children included: for XFlags{On bool; Opt *bool; Zero bool} (a required
+   property on a value field, an optional one on a pointer field conflicting with a treat-empty-as-default one on a
+   value field) the children condition is PROVED (boolean property types) and the theorem holds for every raw
+   value and every fuel *)
+From Verif Require Import Proofs.XRoundEx.
+Theorem C01_struct_roundtrip_instance : forall words pu f f' v n,
+  raw_keys_unique v = true ->
+  xunser words pu (S (S f)) xf_env xf_obj v = Ok n ->
+  xvalidate words pu (S (S f')) xf_env xf_obj n = Ok tt /\
+  exists w, xserialize words pu (S (S f')) xf_env xf_obj n = Ok w.
+Proof. exact x_struct_roundtrip_flags. Qed.
+Print Assumptions C01_struct_roundtrip_instance.
+
+Example C01_struct_roundtrip_run :
+  let v := VMap t_any_map false [(vstr "on", vstr "yes"); (vstr "zero", vbool false)] in
+  let n := VStruct (TStruct "XFlags") [("On", vbool true); ("Opt", VPtr (TPtr TBool) None); ("Zero", vbool false)] in
+  raw_keys_unique v = true /\
+  xunser [("yes", true)] (fun _ _ => None) 3 xf_env xf_obj v = Ok n /\
+  xserialize [("yes", true)] (fun _ _ => None) 3 xf_env xf_obj n = Ok (VMap t_str_map false [(vstr "on", vbool true)]).
+Proof. exact x_struct_roundtrip_flags_run. Qed.
